@@ -88,6 +88,7 @@ func (q *rpcQueue) push(rpc *RPC, urgent bool, block bool) error {
 				panic(ErrQueuePushOnClosed)
 			}
 		} else {
+			verifQueuePush(q, rpc, urgent, ErrQueueFull)
 			return ErrQueueFull
 		}
 	}
@@ -98,6 +99,7 @@ func (q *rpcQueue) push(rpc *RPC, urgent bool, block bool) error {
 	}
 
 	q.dataAvailable.Signal()
+	verifQueuePush(q, rpc, urgent, nil)
 	return nil
 }
 
@@ -126,6 +128,7 @@ func (q *rpcQueue) Pop(ctx context.Context) (*RPC, error) {
 			return nil, ErrQueueCancelled
 		default:
 		}
+		verifSchedPoint("rpcqueue.pop.beforeWait")
 		q.dataAvailable.Wait()
 		// It can receive a signal because the queue is closed.
 		if q.closed {
